@@ -8,6 +8,8 @@ pub mod c11;
 pub mod c13;
 pub mod c14;
 pub mod c19;
+pub mod c07;
+pub mod pillar;
 pub mod xp;
 
 #[cfg(kani)]
@@ -26,6 +28,8 @@ pub fn registry() -> Vec<(&'static str, Body)> {
   v.extend(c13::registry());
   v.extend(c14::registry());
   v.extend(c19::registry());
+  v.extend(c07::registry());
+  v.extend(pillar::registry());
   v.extend(xp::registry());
   v
 }
